@@ -428,7 +428,7 @@ ESCAPES = ["\\U00000041", "\\U0001F431", "\\U00110000", "\\U0000D800", "\\u0041"
 def odd_literal(draw) -> Tuple:
     """A string / bytes literal in any prefix and quote style whose body is a sequence of escapes of every form - valid, invalid for the literal's kind,
     out of range, truncated. The compile step must accept it or reject it with a parse error; evaluation must give a value or a CEL error."""
-    prefix = draw(st.sampled_from(["", "", "b", "b", "B", "r", "R", "br", "rb", "bR", "Rb"]))
+    prefix = draw(st.sampled_from(["", "", "b", "b", "B", "r", "R", "br", "bR", "Br", "BR"]))
     q = draw(st.sampled_from(["'", '"', "'''", '"""']))
     body = "".join(draw(st.lists(st.sampled_from(ESCAPES), min_size=0, max_size=4)))
     if q in body and len(q) == 1 and "\\" + q not in body:
@@ -437,6 +437,18 @@ def odd_literal(draw) -> Tuple:
 METHODS0 = ["size", "getFullYear", "getMonth", "getDate", "getDayOfMonth", "getDayOfWeek", "getDayOfYear", "getHours", "getMinutes", "getSeconds", "getMilliseconds"]
 METHODS1 = ["contains", "startsWith", "endsWith", "matches", "getHours", "nomethod"]
 BINOPS = ["+", "-", "*", "/", "%", "==", "!=", "<", "<=", ">", ">=", "in", "&&", "||"]
+
+
+@st.composite
+def _call_node(draw, sub) -> Tuple:
+    n = draw(st.integers(0, 9))
+    if n < 7:
+        return ("call", draw(st.sampled_from(FUNCS1)), (sub(),))
+    if n == 7:
+        return ("call", draw(st.sampled_from(FUNCS1 + ["has"])), ())  # every function (and the function-like macro) with no argument at all
+    if n == 8:
+        return ("call", draw(st.sampled_from(FUNCS1)), (sub(), sub()))
+    return ("call", draw(st.sampled_from(FUNCS1)), (sub(), sub(), sub()))
 
 
 @st.composite
@@ -471,7 +483,10 @@ def any_expr(draw, depth: int, names: List[str], macro_vars: Tuple[str, ...] = (
         return ("method", recv, draw(st.sampled_from(METHODS0[1:])), (arg,))
     if c == "msg":
         name = draw(st.sampled_from(MSG_NAMES))
-        head: Tuple = ("var", name) if "." not in name else ("raw", name, 8)
+        parts = name.split(".")
+        head: Tuple = ("var", parts[0])
+        for part in parts[1:]:
+            head = ("select", head, part)
         nf = draw(st.integers(0, 3))
         return ("msg", head, tuple((draw(st.sampled_from(MSG_FIELDS)), sub()) for _ in range(nf)))
     if c == "bin":
@@ -492,14 +507,14 @@ def any_expr(draw, depth: int, names: List[str], macro_vars: Tuple[str, ...] = (
     if c == "has":
         return ("has", sub(), draw(st.sampled_from(FIELD_NAMES)))
     if c == "call":
-        n = draw(st.integers(0, 9))
-        if n < 7:
-            return ("call", draw(st.sampled_from(FUNCS1)), (sub(),))
-        if n == 7:
-            return ("call", draw(st.sampled_from(FUNCS1 + ["has"])), ())  # every function (and the function-like macro) with no argument at all
-        if n == 8:
-            return ("call", draw(st.sampled_from(FUNCS1)), (sub(), sub()))
-        return ("call", draw(st.sampled_from(FUNCS1)), (sub(), sub(), sub()))
+        node = draw(_call_node(sub))
+        if "." in node[1]:  # a dotted function name is, to the grammar, a method of the name before the last dot
+            parts = node[1].split(".")
+            recv: Tuple = ("var", parts[0])
+            for part in parts[1:-1]:
+                recv = ("select", recv, part)
+            return ("method", recv, parts[-1], node[2])
+        return node
     if c == "method":
         if draw(st.integers(0, 7)) == 0:
             # a macro name with the wrong number of arguments: CEL treats it as an (unknown) method call
